@@ -94,6 +94,31 @@ def rule_r2(facts, rep, rid="C05-R2"):
             else:
                 rep.ok(rid, key, "url passed as written", loc(f, call))
     rep.floor(rid, "call sites of Key::from_rel_link_url", m, 5)
+    # the directory comes from the key the SectionsBuilder was made for: the builders it makes for nested blocks (quotes) must be made for the same key - a key rebuilt from the
+    # directory (`self.parent.as_str().into()`, `Key::from_file_name(&self.parent)`) would have its parent taken a second time
+    k = 0
+    for f in facts.body_fns():
+        if f.crate != "liwe" or "::tests::" in f.def_ or "::test::" in f.def_:
+            continue
+        i = 0
+        for call in fb.calls_in(f.body, lambda p: p.endswith("SectionsBuilder::new") or p.endswith("SectionsBuilder::<'a>::new")):
+            if len(call.get("args", [])) < 3:
+                continue
+            c = ctx(f)
+            k += 1
+            key = "%s|SectionsBuilder::new(key)|%d" % (f.parent if f.kind == "closure" and f.parent else f.def_, i)
+            i += 1
+            pv = c.vprov(call["args"][2])
+            conv = sorted(set(fb.last_seg(a[1]) for a in pv if a[0] == "call" and fb.last_seg(a[1]) in ("into", "from", "from_file_name", "from_rel_link_url", "parent", "new", "default", "to_string", "format")))
+            inside = (f.impl_self or "").split("<")[0].endswith("SectionsBuilder") or (f.kind == "closure" and "SectionsBuilder" in (f.parent or ""))
+            if conv:
+                rep.violation(rid, key, "the key handed to the nested SectionsBuilder is rebuilt with %s instead of being the note's key: the nested blocks resolve their links against another "
+                              "directory" % ", ".join("`%s`" % x for x in conv), loc(f, call))
+            elif inside and ("field", "key") not in pv:
+                rep.violation(rid, key, "the nested SectionsBuilder is not made for `self.key` (%s)" % sorted(pv)[:4], loc(f, call))
+            else:
+                rep.ok(rid, key, "made for the note's own key", loc(f, call))
+    rep.floor(rid, "call sites of SectionsBuilder::new", k, 3)
 
 
 def _cached_parent(facts, f, c, e):
